@@ -711,3 +711,25 @@ def run_plumbing(R, tonic, comp, enabled):
         for fb, bb, t in nr:
             e = show(fb.origin(t['args'][3]))
             R.check('encoding' in e, 'C05.R5', 'cli:decoder-gets-checked-encoding', site(fb, bb), 'encoding argument = %s' % e[:160])
+
+    # ---------------------------------------------------------------- R8 who may write the negotiation headers
+    R.describe('C05.R8', 'grpc-encoding and grpc-accept-encoding are written (insert / append / remove / entry) only by the client request builder, the server response builder and the refusal path - no layer of the workspace (tonic-web, health, reflection, transport) rewrites what a peer offered or announced')
+    with R.guard('C05.R8'):
+        ALLOWED = {
+            'grpc-encoding': (r'client::grpc::GrpcConfig::prepare_request$', r'server::grpc::Grpc::<T>::map_response$'),
+            'grpc-accept-encoding': (r'client::grpc::GrpcConfig::prepare_request$', r'codec::compression::CompressionEncoding::from_encoding_header$'),
+        }
+        n = 0
+        seen_writers = set()
+        for cname in ('tonic', 'tonic_web', 'tonic_health', 'tonic_reflection', 'tonic_types', 'tonic_prost'):
+            for cr_ in R.crates(cname):
+                for b, bb, t, k in header_writes(cr_, set(ALLOWED)):
+                    R.saw(b)
+                    n += 1
+                    host = b.path
+                    ok = any(re.search(p_, host) for p_ in ALLOWED[k]) or any(re.search(p_, (b.parent or '')) for p_ in ALLOWED[k])
+                    if ok:
+                        seen_writers.add((k, host.rsplit('::', 1)[-1] if '{' not in host else host))
+                    R.check(ok, 'C05.R8', 'writer:%s:%s' % (k, short(host)[-70:]), site(b, bb),
+                            '%s(%s) in %s - the header a peer sent or the handler stack announced is replaced or dropped outside the three negotiation sites' % (t.get('name'), k, cname))
+        R.floor('C05.R8', 'writes of grpc-encoding / grpc-accept-encoding found in the library crates', n, 4)
